@@ -257,6 +257,9 @@ func c02GenPre(t *rapid.T, n c02Node, nSlots int, mode string) []c02PreENI {
 				p.Binds = nil
 			}
 			p.N4, p.N6 = min(p.N4, n.V4Per), min(p.N6, n.V6Per)
+			if !n.V4 {
+				p.N4 = 1 // an IPv6-only node never asked for secondary IPv4 addresses
+			}
 			if (p.Type == "erdma" && !n.ERDMA) || (p.Type == "trunk" && !n.Trunk) {
 				p.Type = "secondary" // only kinds the flavor knows
 			}
